@@ -1,6 +1,6 @@
 /* VERIF-GROUP
 {
- "property": ["C15"],
+ "property": ["C15", "C17"],
  "entry": "h_skip_array",
  "enforce": ["skip_array"],
  "replace": ["skip_ws", "skip_value"],
